@@ -75,6 +75,11 @@ namespace
         catch (const Injected&) { return false; }
     }
 
+    template <class V> inline bool moved_from(const V&) { return false; }
+#ifdef SQ_THROWING
+    inline bool moved_from(const FT& v) { return v.moved; }
+#endif
+
     // ---- the two container families behind one interface ---------------------------------------
 #if SQ_FAMILY == 0
     using Second = bool;
@@ -88,8 +93,8 @@ namespace
     Elem fresh_elem() { return Elem(T(), false); }                 // default construction / resize(s): missing
     Elem elem_of(T a, T /*b*/, bool f) { return Elem(a, f); }
     // whole-value writes into a proxy
-    const char* const write_forms[] = {"assign_optional", "assign_missing", "assign_scalar", "value_ref", "flag_ref"};
-    constexpr unsigned n_write_forms = 5;
+    const char* const write_forms[] = {"assign_optional", "assign_missing", "assign_scalar", "value_ref", "flag_ref", "own_value_other_flag", "own_value_other_flag_lvalue"};
+    constexpr unsigned n_write_forms = 7;
     template <class R> void write_ref(R&& r, unsigned form, T a, T /*b*/, bool f, Elem& m)
     {
         switch (form)
@@ -98,6 +103,9 @@ namespace
         case 1: r = xtl::missing<T>(); m = Elem(T(), false); break;
         case 2: r = a; m = Elem(a, true); break;
         case 3: r.value() = a; m.first = a; break;
+        // "keep the value, change the flag": the assigned optional's value closure designates the element's own value
+        case 5: r = xtl::optional(r.value(), f); m.second = f; break;
+        case 6: { auto o = xtl::optional(r.value(), f); r = o; m.second = f; } break;
         default: r.has_value() = f; m.second = f; break;
         }
     }
@@ -431,21 +439,27 @@ namespace
                 return;
             }
 #endif
-#if SQ_FAMILY == 0 && !defined(SQ_THROWING)
+#if SQ_FAMILY == 0
             if ((st.c >> 20) % 4 == 1)
             {
                 // an element proxy of ANOTHER optional container - other value type, other length, other position, hence another
                 // bit of another flag block - assigned to this one: value and flag of that element arrive, nothing else moves
+#if defined(SQ_THROWING)
+                // (for the move-sensitive element type: same value type, another flag container - still another proxy type)
+                using U = T;
+                using Src = xtl::xoptional_vector<U, std::allocator<U>, xtl::xdynamic_bitset<uint16_t>>;
+#elif defined(SQ_FLAG_BLOCK)
                 using U = typename std::conditional<std::is_same<T, double>::value, float, long>::type;
-#ifdef SQ_FLAG_BLOCK
                 using Src = xtl::xoptional_vector<U, std::allocator<U>, xtl::xdynamic_bitset<SQ_FLAG_BLOCK>>;
 #else
+                using U = typename std::conditional<std::is_same<T, double>::value, float, long>::type;
                 using Src = xtl::xoptional_vector<U>;
 #endif
                 size_t sn = 1 + static_cast<size_t>((st.c >> 8) % 150);
                 Src src(sn, U(0));
+                const int base = 3;
                 uint64_t bits = st.b * 0x9e3779b97f4a7c15ULL + st.c;
-                for (size_t k = 0; k < sn; ++k) { src[k] = static_cast<U>(k + 3); if (((bits >> (k % 59)) ^ (k / 59)) & 1) src.has_value()[k] = false; }
+                for (size_t k = 0; k < sn; ++k) { src[k] = static_cast<U>(static_cast<int>(k) + base); if (((bits >> (k % 59)) ^ (k / 59)) & 1) src.has_value()[k] = false; }
                 size_t j = static_cast<size_t>((st.c >> 30) % sn);
                 bool jf = static_cast<bool>(src.has_value()[j]);
                 switch ((st.c >> 6) & 3)
@@ -455,10 +469,10 @@ namespace
                 case 2: *(c.begin() + di) = *(src.begin() + static_cast<std::ptrdiff_t>(j)); break;
                 default: c.at(i) = src.at(j); break;
                 }
-                m[i] = Elem(static_cast<T>(static_cast<U>(j + 3)), jf);
+                m[i] = Elem(static_cast<T>(static_cast<U>(static_cast<int>(j) + base)), jf);
                 for (size_t k = 0; k < sn; ++k)
-                    if (src[k].value() != static_cast<U>(k + 3) || static_cast<bool>(src.has_value()[k]) != !(((bits >> (k % 59)) ^ (k / 59)) & 1))
-                        viol("invariant", "source", "assigning from an element of another container changed that container (element " + std::to_string(k) + ")");
+                    if (src[k].value() != static_cast<U>(static_cast<int>(k) + base) || moved_from(src[k].value()) || static_cast<bool>(src.has_value()[k]) != !(((bits >> (k % 59)) ^ (k / 59)) & 1))
+                        viol("invariant", "source", "assigning from an element of another container changed that container (element " + std::to_string(k) + (moved_from(src[k].value()) ? " was moved from)" : ")"));
                 SIM_PROBE("proxy_of_another_container_assigned");
                 ++run.changing;
                 check_all();
